@@ -81,6 +81,30 @@ def run(chk):
                         return check(SL, pk)
                     chk.run("C13.R1", SITE[eq_type], cfg, go, construct=f"system terms[{eq_type}]")
 
+        # weights that are not passed at all take the declared default of the weights class: 1.0 for the PDE systems, like the
+        # single-loss weights (the ODE class declares None for its fields: see DESIGN section 6)
+        if eq_type != 'ODE':
+            for f_ in fields:
+                ws = {g: ('omitted' if g == f_ else 'scalar') for g in fields}
+                cfg = {"loss": eq_type, "net": "PINN", "weights": ws, "terms": list(names)}
+
+                def go_om(eq_type=eq_type, ws=ws, names=names):
+                    SL = SystemLoss(E, eq_type, 'PINN', terms=names, weights=ws)
+                    return check(SL)
+                chk.run("C13.R1", SITE[eq_type], cfg, go_om, construct=f"system terms with an omitted weight[{eq_type}]")
+            cfg = {"loss": eq_type, "net": "PINN", "weights": "all omitted", "terms": list(names)}
+            chk.run("C13.R1", SITE[eq_type], cfg,
+                    (lambda eq_type=eq_type, names=names: check(SystemLoss(E, eq_type, 'PINN', terms=names, weights={g: 'omitted' for g in fields}))),
+                    construct=f"system terms with an omitted weight[{eq_type}]")
+
+        # two system losses built one after the other keep their own weights (no state shared between instances)
+        def go_two(eq_type=eq_type, names=names):
+            A = SystemLoss(E, eq_type, 'PINN', terms=names, weights='dict', wprefix='wA')
+            B = SystemLoss(E, eq_type, 'PINN', terms=names, weights='scalar', wprefix='wB')
+            return check(A) + " / " + check(B)
+        chk.run("C13.R1", SITE[eq_type], {"loss": eq_type, "instances": "A (per-key weights) then B (scalar weights); A evaluated after B was built"},
+                go_two, construct=f"two instances[{eq_type}]")
+
         # per-unknown specifications: unknown a has two outputs, a boundary condition / observations on a part of them; unknown b
         # is scalar - each internal single-network loss must receive ITS OWN selection (both orders of the unknowns)
         for unknowns in (('a', 'b'), ('b', 'a')):
